@@ -81,6 +81,13 @@ pub fn exec(line: &str) -> String {
         },
         ["display", a] => hex(shape!(a).to_string().as_bytes()),
         ["echo", a] => sexp(&shape!(a)),
+        ["gen", a] => {
+            // json_shape_build links the published json_shape 0.5.1: convert through serde
+            let s0 = shape!(a);
+            let j = serde_json::to_string(&s0).unwrap();
+            let old: json_shape_old::JsonShape = serde_json::from_str(&j).unwrap();
+            hex(json_shape_build::verif_generate(&old).as_bytes())
+        }
         ["lex", h] => {
             let (toks, diags) = json_shape::verif::lex(&text!(h));
             let mut out = String::new();
